@@ -117,7 +117,9 @@ def main():
                 h = c['handle']
                 given = None if h['given'] is None else [mkk(k) for k in h['given']]
                 res = CodeGenerator._handle_post_processors(Lang(h['cfg_limit'], h['cfg_trim']), given)
-                entry = {'kinds': None if res is None else [kind(pp) for pp in res]}
+                entry = {'kinds': None if res is None else [kind(pp) for pp in res],
+                         'given_after': None if given is None else [kind(pp) for pp in given],
+                         'same_object': res is given}
                 if 'chunks' in c:   # ... and the text written through the line processors of that list (as _generate_code selects them)
                     line_pps = [pp for pp in (res or []) if isinstance(pp, P.LinePostProcessor)]
                     if line_pps:
